@@ -119,6 +119,9 @@ PullIfNeeded(p, hasIn, hasSub, now) ==
     THEN [p EXCEPT !.flying = TRUE, !.n = @ + 1, !.attempts = @ + 1, !.gen = @ + 1]
     ELSE p
 
+\* a subscriber arrives (Group.addSub): a consumer is present now, whether or not a tick sees it before it leaves again -
+\* "attempted only while ... a consumer has been present within the configured window"
+Seen(p) == [p EXCEPT !.lastOut = clock]
 \* a group created now starts its pull module with lastHasOutTs = now
 Created(p) == IF grp THEN p ELSE [PullInit EXCEPT !.lastOut = clock, !.attempts = p.attempts]
 
@@ -207,7 +210,7 @@ NewSub(x) ==
   /\ grp' = TRUE
   /\ ss' = [ss EXCEPT ![x] = "in"]
   /\ nh' = [nh EXCEPT ![x] = "started"]
-  /\ pull' = IF PullEnabled THEN PullIfNeeded(Created(pull), HasIn, TRUE, clock) ELSE pull     \* addSub -> pullIfNeeded
+  /\ pull' = IF PullEnabled THEN PullIfNeeded(Seen(Created(pull)), HasIn, TRUE, clock) ELSE pull     \* addSub -> pullIfNeeded
   /\ act' = [name |-> "NewSub", x |-> x, obs |-> ObsP("ok", <<N("sub_start", x)>>, <<>>, pull')]
   /\ UNCHANGED <<inp, owner, closed, clock, nticks>>
 
@@ -227,7 +230,7 @@ HlsOpen(x) ==
   /\ grp' = TRUE
   /\ ss' = [ss EXCEPT ![x] = "in"]
   /\ nh' = [nh EXCEPT ![x] = "started"]
-  /\ pull' = IF PullEnabled THEN PullIfNeeded(Created(pull), HasIn, TRUE, clock) ELSE pull
+  /\ pull' = IF PullEnabled THEN PullIfNeeded(Seen(Created(pull)), HasIn, TRUE, clock) ELSE pull
   /\ act' = [name |-> "HlsOpen", x |-> x, obs |-> ObsP("ok", <<N("sub_start", x)>>, <<>>, pull')]
   /\ UNCHANGED <<inp, owner, closed, clock, nticks>>
 
@@ -393,6 +396,13 @@ KickPull ==
               /\ UNCHANGED <<pull, inp, owner>>
   /\ UNCHANGED <<grp, ss, closed, nh, clock, nticks>>
 
+\* kick_session with a pull session id that is not the attached one (the id of an attempt that has ended, which is
+\* what start_relay_pull handed to the caller before a retry): answered 1003, the accepted pull is left alone
+KickStale ==
+  /\ PullEnabled
+  /\ act' = [name |-> "KickStale", obs |-> Obs(IF grp THEN "nosession" ELSE "nogroup", <<>>, <<>>)]
+  /\ UNCHANGED <<grp, ss, closed, nh, clock, nticks, pull, inp, owner>>
+
 \* the origin accepts the attempt in flight: AddRtmpPullSession under the group lock
 PullOk ==
   /\ PullEnabled /\ pull.flying /\ ~pull.att
@@ -512,7 +522,7 @@ Step == \/ \E x \in NetPubs : NewPub(x) \/ DelPub(x)
         \/ \E x \in Pubs : Probe(x)
         \/ \E x \in RtspPubs : KeepAlive(x) \/ Misuse(x)
         \/ Describe
-        \/ Tick \/ StartPull \/ StopPull \/ KickPull \/ PullOk \/ PullFail \/ PullEnd \/ Advance \/ ProbePull
+        \/ Tick \/ StartPull \/ StopPull \/ KickPull \/ KickStale \/ PullOk \/ PullFail \/ PullEnd \/ Advance \/ ProbePull
 \* (one conjunction, so that TLC's simulator chooses uniformly among successor states instead of
 \*  picking the Shutdown disjunct half of the time)
 \* after the shutdown nothing happens; Halt only exists so that a simulated behaviour still has a
